@@ -218,7 +218,7 @@ PROPS = {
                     "that links them is part of the contracts. http.cookies.SimpleCookie is an assumed contract; the BOUNDED enumeration runs the "
                     "real SimpleCookie against a reference model as a cross-check of that assumption and is not counted as proved.",
         trusted_base=["assumed contract of http.cookies.SimpleCookie / Morsel (ordered map name -> morsel with value and Domain attribute; update() as dict.update)",
-                      "A-LOWER: str.lower() is idempotent, keeps a leading '.', maps only '' to '' (checked natively over all code points)",
+                      "A-LOWER: str.lower() is idempotent, keeps a leading '.' and creates none, maps only '' to '' (checked natively over all code points on every run of the bounded cross-check)",
                       "z3 string theory incl. its code-point order (Python compares str by code point)"],
         assumptions=["contract cases fix the number of entries: jar of 0-2 domains with 1-2 cookies each, responses of 1-2 cookies (one Domain per response, as "
                      "the property's quantifier says); cookie names are non-empty tokens without '=', ';' or space"],
